@@ -192,6 +192,21 @@ def op_marsh_body(name):
     return dg([repr(co.co_names), repr(co.co_varnames), [repr(getattr(c, "co_names", c)) for c in co.co_consts]])
 
 
+def op_marsh_code(name):
+    """marshal a Python-2 code object with xdis.marsh (what write_bytecode_file does)"""
+    saved = xload.PYTHON_MAGIC_INT
+    xload.PYTHON_MAGIC_INT = -1
+    try:
+        co = load_module(FILES[name])[3]
+    finally:
+        xload.PYTHON_MAGIC_INT = saved
+    try:
+        b = xmarsh.dumps(co)
+        return dg([type(b).__name__, hashlib.sha1(b if isinstance(b, bytes) else str(b).encode("latin-1", "replace")).hexdigest()])
+    except Exception as e:
+        return "raised:%s" % type(e).__name__
+
+
 def op_marsh():
     v = (1, 2.5, "t\xe9xt", b"b", (None, True), [1, 2], {"k": None}, frozenset([1]), 2 ** 70)
     b = xmarsh.dumps(v)
@@ -223,6 +238,7 @@ OPS = {
     "std27": lambda: op_std_variant((2, 7), None), "std27pypy": lambda: op_std_variant((2, 7), "pypy"),
     "marsh27a": lambda: op_marsh_body("f27"), "marsh27b": lambda: op_marsh_body("f27b"),
     "loaddropbox": lambda: op_load("fdropbox"),
+    "marshcode27": lambda: op_marsh_code("f27"),
 }
 
 
